@@ -837,6 +837,41 @@ def main():
             if ck.enough():
                 break
             check_family(ck, fam, ctor, spec, args, jobs)
+    # Histories: a constructor's answer must not depend on which constructors were called before it in the same process
+    # (shared helper results, caches).  All constructors — including sheveleva2, judged by the Lean specification through the
+    # driver — are called in a shuffled order, several times, with repeated sizes; every answer is compared with the
+    # specification again.
+    if not only and not ck.violations:
+        def lean_spec(fam, args):
+            ints_ = [int(a) for a in args if not isinstance(a, bool)]
+            flags_ = [1 if a else 0 for a in args if isinstance(a, bool)]
+            return ck.driver().ask(f"family {fam} ; {' '.join(map(str, ints_))} ; {' '.join(map(str, flags_))}")
+
+        def render(d):
+            return f"ok ; {d.name} ; {' | '.join(d.generator_names)} ; {' '.join(map(str, d.central_state))} ; {' | '.join(' '.join(map(str, g)) for g in d.generators_permutations)}"
+
+        calls = []
+        for fam, (ctor, spec, params) in FAMILIES.items():
+            ps = [a for a in params(8) if all(isinstance(x, bool) or 4 <= x or k > 0 for k, x in enumerate(a))]
+            for a in ck.rng.sample(ps, min(len(ps), 3)):
+                calls.append((fam, ctor, a))
+        for n in (5, 6, 7, 8, 9):
+            for k in range(1, n - 2):
+                calls.append(("sheveleva2", PG.sheveleva2, (n, k)))
+        calls = calls * 2
+        ck.rng.shuffle(calls)
+        for fam, ctor, a in calls:
+            if ck.enough():
+                break
+            try:
+                got = render(ctor(*a))
+            except Exception as ex:  # pylint: disable=broad-except
+                got = f"raised {type(ex).__name__}"
+            want = lean_spec(fam, a)
+            ck.evaluations += 1
+            ck.count("history:" + fam)
+            if " ".join(got.split()) != " ".join(want.split()):
+                ck.violation(f"C15/{fam}/history", f"{fam}{a} called after other constructors in the same process deviates from its specification", {"case": {"family": fam, "args": list(a), "history": "shuffled calls of all constructors (seeded)"}, "observed": got[:300], "expected": want[:300]})
     # Directed search: a theorem `translated constructor ∘ create = specification` no longer checks against the current
     # source.  That is not a violation by itself; the families of the broken module are now compared with the
     # specification far beyond the usual parameter cap (the theorems were about ALL parameters, so the difference may
